@@ -156,9 +156,6 @@ pub fn install_panic_hook() {
     }));
 }
 
-fn sends(c: &UciCommand) -> bool {
-    matches!(c, UciCommand::SetDebug { .. } | UciCommand::UciNewGame | UciCommand::PositionFrom { .. } | UciCommand::Go { .. } | UciCommand::Stop | UciCommand::PonderHit | UciCommand::Quit)
-}
 
 impl Session {
     pub fn start(knobs: &Knobs) -> Result<Session, Fail> {
@@ -206,9 +203,6 @@ impl Session {
                         {
                             let mut g = sc.lock();
                             g.events.push(Event::Parsed(format!("Ok({:?})", command)));
-                            if sends(&command) {
-                                g.pending += 1;
-                            }
                         }
                         if let UciCommand::SetDebug { debug } = command {
                             tx.set_debug(debug);
